@@ -465,10 +465,12 @@ func runC16(c *Ctx) {
 		var subParams []string
 		// (looked for on the graph with the helpers in place: the subscription may be shared by both)
 		gf := newFuncCFG(p, info, fd.Body, key)
+		var subCall *ast.CallExpr
 		for _, cl := range gf.Calls(func(cl *ast.CallExpr) bool { return callNamed("Subscribe")(cl) && len(cl.Args) == 1 }) {
 			{
 				if b, pos := callableBody(p, info, cl.Args[0]); b != nil {
 					subBody, subPos = b, pos
+					subCall = cl
 					var ft *ast.FuncType
 					switch x := ast.Unparen(cl.Args[0]).(type) {
 					case *ast.FuncLit:
@@ -519,7 +521,54 @@ func runC16(c *Ctx) {
 				}
 			}
 		}
+		// ... and it is THIS group's counter: the group the child was created in, not its root or any
+		// other group (an intermediate group that is skipped reports zero pending children while its
+		// sub-tree is busy, so its WaitChildren returns early and its Shutdown cancels queued tasks)
+		ownCounter := true
 		if ok {
+			self := recvObj(info, fd)
+			spt, _ := gf.PointOf(subCall)
+			for _, cp := range append(append([]Point{}, incs...), decs...) {
+				inspectNoLit(lf.nodeAt(cp), func(n ast.Node) bool {
+					c, isCall := n.(*ast.CallExpr)
+					if !isCall || !(fieldCallN("PendingChildrenCounter", "Increase")(c) || fieldCallN("PendingChildrenCounter", "Decrease")(c)) {
+						return true
+					}
+					cse := ast.Unparen(c.Fun).(*ast.SelectorExpr)
+					owner, _ := ast.Unparen(cse.X).(*ast.SelectorExpr)
+					if owner == nil {
+						ownCounter = false
+						return true
+					}
+					ro := objOfIdent(info, owner.X)
+					switch {
+					case ro == nil:
+						ownCounter = false
+					case ro == self:
+					default:
+						good := false
+						// the receiver of the helper the subscription is made in, or of the method handed over
+						if arg, apt, found := gf.paramArg(ro, spt); found && (objOfIdent(info, arg) == self || gf.IsVar(arg, apt, self)) {
+							good = true
+						}
+						if mv, isSel := ast.Unparen(subCall.Args[0]).(*ast.SelectorExpr); isSel && !good {
+							if fn, _ := info.Uses[mv.Sel].(*types.Func); fn != nil {
+								if hd := p.decls().byFunc[fn.Origin()]; hd != nil && recvObj(info, hd) == ro && (objOfIdent(info, mv.X) == self || gf.IsVar(mv.X, spt, self)) {
+									good = true
+								}
+							}
+						}
+						if !good {
+							ownCounter = false
+						}
+					}
+					return true
+				})
+			}
+		}
+		if ok && !ownCounter {
+			r.Fail("group/transitions", key, p.posStr(lit.pos), "the subscriber adjusts the pending-children counter of a group other than the one the child is created in (e.g. the root): the creating group never learns that its child is busy")
+		} else if ok {
 			r.Pass("group/transitions", key, p.posStr(lit.pos), "0->n increases and n->0 decreases the group's pending-children counter, nothing else does")
 		} else {
 			r.Fail("group/transitions", key, p.posStr(lit.pos), "the subscriber must map exactly oldValue==0 to Increase and newValue==0 to Decrease")
